@@ -16,7 +16,7 @@ GROUPS = {}
 def gen_cases(ctx):
     rng = ctx.rng
     g = gen_sqlite.SG(rng, portable=True)
-    n = 900 if ctx.quick else 15000
+    n = 900 if ctx.quick else 45000
     lines = []
     for k in range(n):
         q, ordered = g.statement()
